@@ -121,14 +121,37 @@ fn run_cool(args: &[Sx]) -> String {
     tagged("ok", ts)
 }
 
-#[derive(Default)]
 struct SaVisitor {
     steps: Vec<String>,
     pending: Option<(f64, f64, String, String, f64, usize)>,
     cool_before: Option<f64>,
+    /// every acceptance of the run as a prepared `accept` case (input, observed output)
+    accept_cases: Vec<(String, String)>,
+    swapped: bool,
+    fb: u64,
+    script: Option<std::sync::Arc<Script>>,
+    id: u64,
+    shadow: Sm,
+    shadow_pos: usize,
+    used_before: usize,
+    tags: Option<(String, String)>,
+}
+impl SaVisitor {
+    fn new(seed: u64) -> Self {
+        SaVisitor { steps: vec![], pending: None, cool_before: None, accept_cases: vec![], swapped: false, fb: seed, script: None,
+                    id: 0, shadow: Sm::new(seed), shadow_pos: 0, used_before: 0, tags: None }
+    }
 }
 impl Visitor for SaVisitor {
     fn step<Q: HProblem>(&mut self, phase: Phase, name: &'static str, _index: usize, state: &State<Q>, _problem: &Q) {
+        if !self.swapped {
+            // before the first draw of the run: a scripted (SplitMix-backed) generator whose words we can name
+            let (id, s) = register(vec![], self.fb);
+            *state.random_mut() = Random::with_rng::<ScriptRng>(id);
+            self.script = Some(s);
+            self.id = id;
+            self.swapped = true;
+        }
         let key = |i: &Individual<Q>| format!("{}@{}", Q::enc(i.solution()), fx(i.objective().value()));
         if name.contains("ExponentialAnnealingAcceptance") {
             let pops = state.populations();
@@ -142,6 +165,11 @@ impl Visitor for SaVisitor {
                         if pops.peek(0).len() != 1 || pops.peek(1).len() != 1 {
                             self.steps.push("(shape)".into());
                         }
+                        self.used_before = self.script.as_ref().unwrap().used();
+                        // the same frame as a prepared case: tags 2 = candidate, 1 = current, deeper populations by size only
+                        let below: Vec<String> = (2..pops.len()).map(|d| list((0..pops.peek(d).len()).map(|k| format!("({} {})", 100 * d + k, fx(0.0))))).collect();
+                        self.tags = Some((format!("(stack ((2 {})) ((1 {})){}{})", fx(cand.objective().value()), fx(cur.objective().value()),
+                            if below.is_empty() { "" } else { " " }, below.join(" ")), below.join(" ")));
                     } else {
                         self.steps.push("(shape)".into());
                     }
@@ -156,6 +184,18 @@ impl Visitor for SaVisitor {
                             None => "none",
                         };
                         self.steps.push(list(["acc".into(), fx(cur), fx(cand), fx(t), h0.to_string(), pops.len().to_string(), who.into()]));
+                        if let Some((stack_in, below)) = self.tags.take() {
+                            let used1 = self.script.as_ref().unwrap().used();
+                            while self.shadow_pos < self.used_before { self.shadow.next(); self.shadow_pos += 1; }
+                            let mut words = vec![];
+                            while self.shadow_pos < used1 { words.push(self.shadow.next()); self.shadow_pos += 1; }
+                            let nused = words.len();
+                            if words.is_empty() { words.push(0); }
+                            let input = accept_input(t, 0, &words, &stack_in);
+                            let surv = match who { "cand" | "both" => format!("((2 {}))", fx(cand)), "cur" => format!("((1 {}))", fx(cur)), _ => "(lost)".into() };
+                            let output = format!("(ok (stack {}{}{}) (t {}) (used {}))", surv, if below.is_empty() { "" } else { " " }, below, fx(t), nused);
+                            self.accept_cases.push((input, output));
+                        }
                     }
                 }
             }
@@ -173,22 +213,24 @@ impl Visitor for SaVisitor {
             self.steps.push("(pass)".into());
         }
     }
-    fn done<Q: HProblem>(&mut self, _outcome: &Outcome, _state: Option<&State<Q>>, _problem: &Q) {}
+    fn done<Q: HProblem>(&mut self, _outcome: &Outcome, _state: Option<&State<Q>>, _problem: &Q) {
+        if self.swapped { unregister(self.id); }
+    }
 }
 
 const SA_T0: [f64; 3] = [1.0, 100.0, 1e-3];
 const SA_ALPHA: [f64; 3] = [0.9, 0.99, 0.5];
 
 /// `(run (tmpl name) (v k) (i k) (iters n) (seed s) (t0 x) (alpha x))`
-fn run_run(args: &[Sx]) -> String {
+fn run_run(args: &[Sx]) -> (String, Vec<(String, String)>) {
     let name = field(args, "tmpl")[0].atom().unwrap().to_string();
     let v = field(args, "v")[0].nat().unwrap() as u32;
     let i = field(args, "i")[0].nat().unwrap() as u32;
     let iters = field(args, "iters")[0].nat().unwrap() as u32;
     let seed = field(args, "seed")[0].nat().unwrap();
-    match run_template(&name, v, i, iters, seed, EvalKind::Sequential, SaVisitor::default()) {
-        Ok((vis, outcome)) => list([outcome.tag().to_string(), tagged("steps", vis.steps)]),
-        Err(_) => "(ctor-err (steps))".into(),
+    match run_template(&name, v, i, iters, seed, EvalKind::Sequential, SaVisitor::new(seed)) {
+        Ok((vis, outcome)) => (list([outcome.tag().to_string(), tagged("steps", vis.steps)]), vis.accept_cases),
+        Err(_) => ("(ctor-err (steps))".into(), vec![]),
     }
 }
 
@@ -198,7 +240,7 @@ fn run_case(input: &Sx) -> String {
         "accept" => run_accept(args),
         "freq" => run_freq(args),
         "cool" => run_cool(args),
-        "run" => run_run(args),
+        "run" => run_run(args).0,
         _ => panic!("unknown case kind {kind}"),
     }
 }
@@ -281,6 +323,15 @@ fn main() {
             }
         }
     }
+    // 2b. infinite objective values (legal `SingleObjective`s: an infeasible solution is +inf)
+    let inf = f64::INFINITY;
+    for &t in &[1e-9, 1e-3, 1.0, 1e3, 1e9] {
+        for k in [0u64, 1u64 << 52, (1u64 << 53) - 1] {
+            emit("accept-equal-inf", accept_input(t, 1, &[word_for_k(k, 0)], &two(inf, inf)));
+            emit("accept-inf", accept_input(t, 1, &[word_for_k(k, 0)], &two(inf, 1.5)));
+            emit("accept-inf", accept_input(t, 1, &[word_for_k(k, 0)], &two(-2.5, inf)));
+        }
+    }
     // 3. acceptance frequencies
     let n = if a.thorough { 20000 } else { 2000 };
     for kind in ["chacha", "sm"] {
@@ -312,15 +363,24 @@ fn main() {
         let alpha = rng.unit();
         emit("cool", format!("(cool (t {}) (alpha {}) (n {}))", fx(t), fx(alpha), rng.range(1, 30)));
     }
-    // 5. template runs
+    // 5. template runs; every acceptance of a run is re-emitted as a prepared case with the exact word it consumed
+    drop(emit);
     let seeds = if a.thorough { 6 } else { 2 };
     for name in ["real_sa", "permutation_sa"] {
         for v in 0..3u32 {
             for i in 0..4u32 {
                 for s in 0..seeds {
                     let iters = if a.thorough { 200 } else { 40 };
-                    emit("run", format!("(run (tmpl {}) (v {}) (i {}) (iters {}) (seed {}) (t0 {}) (alpha {}))",
-                        name, v, i, iters, a.seed * 100 + s, fx(SA_T0[v as usize]), fx(SA_ALPHA[v as usize])));
+                    let input = format!("(run (tmpl {}) (v {}) (i {}) (iters {}) (seed {}) (t0 {}) (alpha {}))",
+                        name, v, i, iters, a.seed * 100 + s, fx(SA_T0[v as usize]), fx(SA_ALPHA[v as usize]));
+                    let sx = Sx::parse(&input).unwrap();
+                    let (_, args) = sx.head().unwrap();
+                    let (output, cases) = run_run(args);
+                    out.case("run", &input, &output);
+                    for (ci, co) in cases {
+                        let site = if ci.contains("(words 0)") && co.ends_with("(used 0))") { "run-accept-better" } else { "run-accept" };
+                        out.case(site, &ci, &co);
+                    }
                 }
             }
         }
